@@ -20,7 +20,7 @@ func VH_C03_ScanStep(st, n, plen, sh int) {
 	if state(st) == looking && plen != 0 {
 		return // excluded by Inv
 	}
-	if (state(st) == gotRaceHeader1 || state(st) == gotRaceHeader2) && sh != 0 {
+	if (state(st) == gotRaceHeader1 || state(st) == gotRaceHeader2 || state(st) == looking) && sh != 0 {
 		return
 	}
 	s := vhPre(st, plen, ng, nc, ncb, gi)
@@ -37,7 +37,9 @@ func VH_C03_ScanStep(st, n, plen, sh int) {
 // vhShape: heap shapes per state.
 func vhShape(st, sh int) (ng, nc, ncb, gi int) {
 	switch state(st) {
-	case looking, done:
+	case looking:
+		return 0, 0, 0, 0
+	case done:
 		if sh == 0 {
 			return 0, 0, 0, 0
 		}
